@@ -171,7 +171,7 @@ ForceDurationPre(items, d) ==
 
 \* the filler is reported by the harness as a cue with id = 0, ptr = 0, t = FillerText
 FillerText == -1
-Filler(d) == [id |-> 0, ptr |-> 0, s |-> d - 1, e |-> d, t |-> FillerText, st |-> "", rg |-> "", rs |-> <<>>, ni |-> 0, ok |-> TRUE]
+Filler(d) == [id |-> 0, ptr |-> 0, s |-> d - 1, e |-> d, t |-> FillerText, st |-> "", rg |-> "", rs |-> <<"">>, ni |-> 0, ok |-> TRUE]
 
 ForceDurationItems(items, d, filler) ==
   IF Duration(items) = d THEN items
